@@ -344,6 +344,47 @@ fn marginals(run: &Run, n: usize, r: usize) {
     }
 }
 
+/// the same exact position law on data whose elements are all alike except one marked element (a NaN among equal
+/// numbers, a -0.0 among +0.0): every output slot holds the marked element with probability exactly 1/n
+fn marginals_marked(run: &Run, n: usize, r: usize, kind: usize) {
+    let m = n / 2;
+    let data: Vec<f64> = (0..n).map(|i| if i == m { if kind == 0 { f64::NAN } else { -0.0 } } else if kind == 0 { 7.0 } else { 0.0 }).collect();
+    let mark = data[m].to_bits();
+    for k in 0..r {
+        for i in 0..n {
+            run.case();
+            run.tr();
+            let d = data.clone();
+            let f = move || {
+                let out = bootstrap(&d, r);
+                if out[k][i].to_bits() == mark { 1.0 } else { 0.0 }
+            };
+            let decl = Decl { max_words: 0, max_units: 4 * n * r, jb: 1, jw: 1, gu: [1, 1, 1, 1], gw: 1, discrete: true, max_leaves: 2_000_000, max_runs: 50_000_000 };
+            let ex = Explorer::new(&f, decl).explore();
+            if !ex.panics.is_empty() {
+                let (msg, sc) = &ex.panics[0];
+                run.violate("bootstrap/small-exhaustive/panic", || format!("bootstrap(data={:?}, {}) on answers {}: {}", data, r, fmt_ans(sc), msg));
+                continue;
+            }
+            run.ok();
+            run.nontrivial(1);
+            if !ex.livelocks.is_empty() || !ex.structure_errors.is_empty() || ex.rejected > 1e-12 || ex.leaves.is_empty() {
+                // a sampler that draws nothing at all has a single leaf and is judged below; anything else outside the
+                // enumeration is left to the frequency test
+                run.skip("draw structure outside exact enumeration: marked-element law left to the frequency test");
+                continue;
+            }
+            let total: f64 = ex.leaves.iter().map(|l| l.mass).sum();
+            let p1: f64 = ex.leaves.iter().filter(|l| l.lo == 1.0 && l.hi == 1.0).map(|l| l.mass).sum::<f64>() / total;
+            if (p1 - 1.0 / n as f64).abs() > 1e-9 {
+                run.violate("bootstrap/position-not-equally-likely/marked-element", || format!("bootstrap(data={:?}, {}): slot {} of resample {} holds the marked element (data position {}) with probability {} (exact enumeration of the generator's answers), expected 1/{}", data, r, i, k, m, p1, n));
+            } else {
+                run.regime("position-law: marked element exactly uniform");
+            }
+        }
+    }
+}
+
 /// Bernstein: P(|X − Np| ≥ t) ≤ 2·exp(−t²/(2(Np(1−p)+t/3))) ≤ alpha_cell
 fn bernstein_t(nn: f64, p: f64, l: f64) -> f64 {
     let v = nn * p * (1.0 - p);
@@ -487,6 +528,10 @@ pub fn run(run: &Run) {
     run.bound("exact position law", format!("n = 1..={} (1 resample), n ≤ 3 also 2 resamples", amax));
     (1..=amax).into_par_iter().for_each(|n| {
         marginals(run, n, 1);
+        if n >= 2 {
+            marginals_marked(run, n, 1, 0);
+            marginals_marked(run, n, 1, 1);
+        }
         if n <= 3 {
             marginals(run, n, 2);
         }
